@@ -57,7 +57,8 @@ ModelMatches(p) ==
 PClause(e) ==
   LET p == e.post
       W == Watched(e) IN
-  IF \E n \in W : p.nodes[S(n)].escaped THEN "C10:exception_escaped_a_handler"
+  IF e.a = "runaway" THEN "C10:message_traffic_between_honest_nodes_does_not_stop"      \* far more deliveries than any synchronisation of this universe needs, still not quiet
+  ELSE IF \E n \in W : p.nodes[S(n)].escaped THEN "C10:exception_escaped_a_handler"
   ELSE IF \E n \in W : SetOf(p.nodes[S(n)].open) # Peers[n] THEN "C10:honest_peer_disconnected"
   ELSE IF \E n \in W : \E b \in ObsHas(p, n) : b \in DOMAIN Parent /\ Parent[b] \notin ObsHas(p, n) THEN "C10:stored_blocks_not_parent_closed"
   ELSE IF \E n \in W : p.nodes[S(n)].head \notin ObsHas(p, n) THEN "C10:head_not_stored"
